@@ -12,7 +12,8 @@ satisfy the read contract.  Instances: the SAFE class (`Lemmas/C13_Safe.lean`, a
 Fragment: null (unit / none), booleans, integers, strings of the class, options, ordinary newtype structs,
 block sequences, tuples and tuple structs, block mappings / structs whose keys are strings of the class or
 composite (sequences, mappings, variants with data of the fragment, written `? key` / `: value`) and
-pairwise different, unit, newtype, tuple and struct variants, nested arbitrarily.  Options: every
+pairwise different, unit, newtype, tuple and struct variants, nested arbitrarily; a string key / variant name whose
+text is longer than 1024 characters (`fitsImplicit`) is laid out as an explicit key too.  Options: every
 `indent_step ≥ 1`, `compact_list_indent` on or off, `empty_as_braces`; `yaml_12` (the prologue), `quote_all`
 and `tagged_enums` (the tokens) on or off.
 -/
@@ -224,14 +225,27 @@ def mapValOf (c : Nat) (lvb : Bool) (isEmpty : Bool) (entries : List Line) : Lis
   if isEmpty then (if lvb then ([], [⟨c, "{}".toList⟩], false) else (" {}".toList, [], false))
   else ([], entries, true)
 
-/-- `Variant:` right after `key:`: on the next line at column `c`; `r` = the layout of the payload after
-`Variant:` -/
-def variantVal (c : Nat) (n : List Char) (r : List Char × List Line × Bool) : List Char × List Line × Bool :=
-  ([], ⟨c, n ++ [':'] ++ r.1⟩ :: r.2.1, r.2.2)
+/-- is the text of a key short enough for an implicit key `key:` (at most 1024 characters)?  A longer scalar key /
+variant name is written as an explicit key: `? key`, and `: value` on the next line. -/
+def fitsImplicit (t : List Char) : Bool := decide (t.length ≤ 1024)
 
-/-- `Variant:` right after `- `: on the dash line -/
-def variantItem (n : List Char) (r : List Char × List Line × Bool) : List Char × List Line × Bool :=
-  (n ++ [':'] ++ r.1, r.2.1, r.2.2)
+/-- `Variant:` right after `key:`: on the next line at column `c`; `r` = the layout of the payload after
+`Variant:`.  A name too long for an implicit key: `? Variant` at column `c` and `: payload` under it; `ri` = the
+layout of the payload after `: ` (like a sequence item after a dash at column `c`). -/
+def variantVal (c : Nat) (n : List Char) (r ri : List Char × List Line × Bool) : List Char × List Line × Bool :=
+  if fitsImplicit n then ([], ⟨c, n ++ [':'] ++ r.1⟩ :: r.2.1, r.2.2)
+  else ([], ⟨c, ['?', ' '] ++ n⟩ :: ⟨c, [':', ' '] ++ ri.1⟩ :: ri.2.1, ri.2.2)
+
+/-- `Variant:` right after `- ` (dash at column `c`): on the dash line.  A name too long for an implicit key:
+`? Variant` on the dash line, `: payload` under the `?` (column `c + 2`); `ri` = the layout of the payload after `: ` -/
+def variantItem (c : Nat) (n : List Char) (r ri : List Char × List Line × Bool) : List Char × List Line × Bool :=
+  if fitsImplicit n then (n ++ [':'] ++ r.1, r.2.1, r.2.2)
+  else (['?', ' '] ++ n, ⟨c + 2, [':', ' '] ++ ri.1⟩ :: ri.2.1, ri.2.2)
+
+/-- `Variant:` at the root -/
+def variantRoot (n : List Char) (r ri : List Char × List Line × Bool) : List Line :=
+  if fitsImplicit n then ⟨0, n ++ [':'] ++ r.1⟩ :: r.2.1
+  else ⟨0, ['?', ' '] ++ n⟩ :: ⟨0, [':', ' '] ++ ri.1⟩ :: ri.2.1
 
 /-- the column of the dashes of a sequence right after `key:` (keys at column `c`): one step deeper,
 or — `compact_list_indent` inside a mapping (`current_map_depth` set) — the column of the keys -/
@@ -249,9 +263,11 @@ def layVal (T : Toks) (k : Nat) (cp inMap : Bool) (c : Nat) (lvb : Bool) : SVal 
   | .tuple xs => seqValOf xs.isEmpty (layItems T k cp (seqCol k cp inMap c) false xs).1
   | .tupleStruct xs => seqValOf xs.isEmpty (layItems T k cp (seqCol k cp inMap c) false xs).1
   | .map _ es => mapValOf (c + k) lvb es.isEmpty (layEntries T k cp (c + k) false es).1
-  | .newtypeVariant n v => variantVal (c + k) (T.name n) (layVal T k cp true (c + k) lvb v)
+  | .newtypeVariant n v => variantVal (c + k) (T.name n) (layVal T k cp true (c + k) lvb v) (layItem T k cp (c + k) lvb v)
   | .tupleVariant n xs => variantVal (c + k) (T.name n) (seqValOf xs.isEmpty (layItems T k cp (seqCol k cp true (c + k)) false xs).1)
+      (laySeqItem T k cp (c + k) lvb xs)
   | .structVariant n fs => variantVal (c + k) (T.name n) (mapValOf (c + k + k) lvb fs.isEmpty (layEntries T k cp (c + k + k) false fs).1)
+      (layMapItem T k cp (c + k) lvb fs)
   | .unit => (' ' :: "null".toList, [], false)
   | .none => (' ' :: "null".toList, [], false)
   | .bool b => (' ' :: (if b then "true".toList else "false".toList), [], false)
@@ -267,9 +283,11 @@ def layItem (T : Toks) (k : Nat) (cp : Bool) (c : Nat) (lvb : Bool) : SVal → L
   | .tuple xs => laySeqItem T k cp c lvb xs
   | .tupleStruct xs => laySeqItem T k cp c lvb xs
   | .map _ es => layMapItem T k cp c lvb es
-  | .newtypeVariant n v => variantItem (T.name n) (layVal T k cp true (c + 2) lvb v)
-  | .tupleVariant n xs => variantItem (T.name n) (seqValOf xs.isEmpty (layItems T k cp (seqCol k cp true (c + 2)) false xs).1)
-  | .structVariant n fs => variantItem (T.name n) (mapValOf (c + 2 + k) lvb fs.isEmpty (layEntries T k cp (c + 2 + k) false fs).1)
+  | .newtypeVariant n v => variantItem c (T.name n) (layVal T k cp true (c + 2) lvb v) (layItem T k cp (c + 2) lvb v)
+  | .tupleVariant n xs => variantItem c (T.name n) (seqValOf xs.isEmpty (layItems T k cp (seqCol k cp true (c + 2)) false xs).1)
+      (laySeqItem T k cp (c + 2) lvb xs)
+  | .structVariant n fs => variantItem c (T.name n) (mapValOf (c + 2 + k) lvb fs.isEmpty (layEntries T k cp (c + 2 + k) false fs).1)
+      (layMapItem T k cp (c + 2) lvb fs)
   | .unit => ("null".toList, [], false)
   | .none => ("null".toList, [], false)
   | .bool b => ((if b then "true".toList else "false".toList), [], false)
@@ -290,9 +308,15 @@ def layMapItem (T : Toks) (k : Nat) (cp : Bool) (c : Nat) (lvb : Bool) : List (S
   | (key, v) :: rest =>
     match keyOf key with
     | some kt =>
-      let r := layVal T k cp true (c + 2) false v
-      let r2 := layEntries T k cp (c + 2) r.2.2 rest
-      (T.key kt ++ [':'] ++ r.1, r.2.1 ++ r2.1, true)
+      if fitsImplicit (T.key kt) then
+        let r := layVal T k cp true (c + 2) false v
+        let r2 := layEntries T k cp (c + 2) r.2.2 rest
+        (T.key kt ++ [':'] ++ r.1, r.2.1 ++ r2.1, true)
+      else
+        -- a first key too long for an implicit key: `- ? key`, then `: value` under the `?`
+        let rv := layItem T k cp (c + 2) false v
+        let r2 := layEntries T k cp (c + 2) rv.2.2 rest
+        (['?', ' '] ++ T.key kt, ⟨c + 2, [':', ' '] ++ rv.1⟩ :: rv.2.1 ++ r2.1, true)
     | none =>
       -- a composite first key: `- ? key`, then `: value` under the `?`
       let rk := layItem T k cp (c + 2) false key
@@ -312,9 +336,15 @@ def layEntries (T : Toks) (k : Nat) (cp : Bool) (c : Nat) (lvb : Bool) : List (S
   | (key, v) :: es =>
     match keyOf key with
     | some kt =>
-      let r := layVal T k cp true c lvb v
-      let r2 := layEntries T k cp c r.2.2 es
-      (⟨c, T.key kt ++ [':'] ++ r.1⟩ :: r.2.1 ++ r2.1, r2.2)
+      if fitsImplicit (T.key kt) then
+        let r := layVal T k cp true c lvb v
+        let r2 := layEntries T k cp c r.2.2 es
+        (⟨c, T.key kt ++ [':'] ++ r.1⟩ :: r.2.1 ++ r2.1, r2.2)
+      else
+        -- a key too long for an implicit key: `? key` and `: value`, the value laid out like a sequence item
+        let rv := layItem T k cp c false v
+        let r2 := layEntries T k cp c rv.2.2 es
+        (⟨c, ['?', ' '] ++ T.key kt⟩ :: ⟨c, [':', ' '] ++ rv.1⟩ :: rv.2.1 ++ r2.1, r2.2)
     | none =>
       -- a composite key: `? key` and `: value`, each laid out like a sequence item after its dash
       let rk := layItem T k cp c lvb key
@@ -331,15 +361,11 @@ def layRoot (T : Toks) (k : Nat) (cp : Bool) : SVal → List Line
   | .tuple xs => if xs.isEmpty then [⟨0, "[]".toList⟩] else (layItems T k cp 0 false xs).1
   | .tupleStruct xs => if xs.isEmpty then [⟨0, "[]".toList⟩] else (layItems T k cp 0 false xs).1
   | .map _ es => if es.isEmpty then [⟨0, "{}".toList⟩] else (layEntries T k cp 0 false es).1
-  | .newtypeVariant n v =>
-    let r := layVal T k cp false 0 false v
-    ⟨0, T.name n ++ [':'] ++ r.1⟩ :: r.2.1
+  | .newtypeVariant n v => variantRoot (T.name n) (layVal T k cp false 0 false v) (layItem T k cp 0 false v)
   | .tupleVariant n xs =>
-    let r := seqValOf xs.isEmpty (layItems T k cp k false xs).1
-    ⟨0, T.name n ++ [':'] ++ r.1⟩ :: r.2.1
+    variantRoot (T.name n) (seqValOf xs.isEmpty (layItems T k cp k false xs).1) (laySeqItem T k cp 0 false xs)
   | .structVariant n fs =>
-    let r := mapValOf k false fs.isEmpty (layEntries T k cp k false fs).1
-    ⟨0, T.name n ++ [':'] ++ r.1⟩ :: r.2.1
+    variantRoot (T.name n) (mapValOf k false fs.isEmpty (layEntries T k cp k false fs).1) (layMapItem T k cp 0 false fs)
   | .str s => ⟨0, (T.strAt k .root s).1⟩ :: (T.strAt k .root s).2
   | .unitVariant e n => ⟨0, (T.unitAt k .root e n).1⟩ :: (T.unitAt k .root e n).2
   | v => match leafTok T v with
